@@ -61,7 +61,7 @@ func c05Setup(rc *RunCtx) simrt.Config {
 	c := &c05cfg{vers: map[uint32]*c05ver{}, byKey: map[int][]*c05ver{}, inflightBg: map[int]int{}, bgTotal: map[int]int{}, fg: map[*query_context.Context]bool{}}
 	c.lazy = []int{0, 0, 20, 400, 3000}[r.Choose(5)]
 	c.keys = 1 + r.Choose(2)
-	c.phases = 2 + r.Choose(8)
+	c.phases = 2 + r.Choose(widen(8, 20))
 	c.pErr = []int{0, 0, 20}[r.Choose(3)]
 	c.pSlow = []int{0, 30, 70}[r.Choose(3)]
 	switch r.Choose(3) {
